@@ -137,9 +137,7 @@ impl<D: DataMut> ScalarZnx<D> {
         // Zero-initialize before setting non-zero entries, since shuffle will
         // mix positions and we need indices hw..n to be zero.
         self.at_mut(col, 0).fill(0);
-        self.at_mut(col, 0)[..hw]
-            .iter_mut()
-            .for_each(|x: &mut i64| *x = (source.next_u32() & 1) as i64);
+        self.at_mut(col, 0)[..hw].fill(1);
         self.at_mut(col, 0).shuffle(source);
     }
 
